@@ -268,7 +268,7 @@ def gen_text(rng, tier):
         lines = [b""] * rng.randint(0, 5)
     elif r < 0.40:
         cls = "many-short"
-        n = rng.randint(1, 40) if rng.random() < 0.85 else rng.randint(41, 2500 if big else 400)
+        n = rng.randint(1, 40) if rng.random() < 0.85 else rng.randint(41, 1500 if big else 400)
         lines = [gen_line(rng, rng.choice(["short", "short", "short", "empty", "multi", "medium"]), big) for _ in range(n)]
     elif r < 0.55:
         cls = "multibyte"
@@ -525,21 +525,40 @@ def case_json(case, res=None):
 
 # ----------------------------------------------------------------------------- the check
 
+def private_work(env):
+    """common.Env wipes .build/work/C17 when it is created, so a second `bin/check C17` started
+    while this one runs would delete the files in use here: work in a directory of our own."""
+    import shutil
+    import tempfile
+    base = os.path.join(common.BUILD, "work")
+    os.makedirs(base, exist_ok=True)
+    env.work = tempfile.mkdtemp(prefix="C17-%d-" % os.getpid(), dir=base)
+    return lambda: shutil.rmtree(env.work, ignore_errors=True)
+
+
 def correspond(env, searching=False, model=True):
+    cleanup = private_work(env)
+    try:
+        return correspond_in(env, searching, model)
+    finally:
+        cleanup()
+
+
+def correspond_in(env, searching=False, model=True):
     ok, out = common.build_naija()
     if not ok:
         raise RuntimeError("naija build failed: " + out[-2000:])
     build_shim()
     rng = env.rng
-    n_cases = 1500 if env.tier == "quick" else 24000
+    n_cases = 1500 if env.tier == "quick" else 40000
     n_pipe = 40 if env.tier == "quick" else 500
     if searching:
         n_cases = int(n_cases * 1.5)
     t_start = time.time()
     # time budgets (seconds after the start): debug pass, release pass (thorough only), runs without the shim
-    deadline = t_start + (40 if env.tier == "quick" else 1000)
+    deadline = t_start + (30 if env.tier == "quick" else 1000)
     deadline_release = t_start + 1400
-    deadline_pipe = t_start + (60 if env.tier == "quick" else 1700)
+    deadline_pipe = t_start + (42 if env.tier == "quick" else 1700)
 
     corpus = load_corpus()
     n_corpus = len(corpus)
@@ -553,7 +572,7 @@ def correspond(env, searching=False, model=True):
     inconclusive = 0
     failing_cases = 0
     model_none = 0
-    workers = min(8, os.cpu_count() or 4)
+    workers = max(6, min(16, os.cpu_count() or 4))
 
     def bump(d, k, n=1):
         d[k] = d.get(k, 0) + n
@@ -566,7 +585,7 @@ def correspond(env, searching=False, model=True):
         passes += [(s0, True) for s0 in range(n_cases, n_cases + n_cases // 4, shard)]
     release_cases = 0
     for s0, release in passes:
-        if time.time() > (deadline_release if release else deadline) and s0 > 0:
+        if time.time() > (deadline_release if release else deadline) and s0 >= 2 * shard:
             stopped_early = True
             if release:
                 break
@@ -585,10 +604,18 @@ def correspond(env, searching=False, model=True):
             # cases dealt out by size so the groups cost about the same
             mfuts = []
             if model:
-                order = sorted(part, key=lambda ic: -len(ic[1]["text"]) * (1 + len(ic[1]["sched"])))
-                ng = max(1, workers // 2)
-                for g in range(ng):
-                    mfuts.append(ex.submit(run_model, env, "m%d_%d" % (s0, g), order[g::ng]))
+                def est(c):   # rough cost of the list-based model: (calls + reads) x bytes buffered
+                    return (c["k"] + len(c["sched"]) + len(c["text"]) // BUF + 1) * (min(len(c["text"]), 9000) + 50)
+                order = sorted(part, key=lambda ic: -est(ic[1]))
+                ng = max(1, workers - 4)
+                bins = [[0, []] for _ in range(ng)]
+                for ic in order:          # longest-processing-time-first assignment
+                    b = min(bins, key=lambda x: x[0])
+                    b[0] += est(ic[1])
+                    b[1].append(ic)
+                for g, (_, grp) in enumerate(bins):
+                    if grp:
+                        mfuts.append(ex.submit(run_model, env, "m%d_%d" % (s0, g), grp))
             impl = list(ex.map(lambda ic: run_impl(env, ic[0], ic[1]), part))
             mres, merr = {}, ""
             for fu in mfuts:
@@ -724,6 +751,14 @@ def correspond(env, searching=False, model=True):
 
 
 def replay(env, payload):
+    cleanup = private_work(env)
+    try:
+        return replay_in(env, payload)
+    finally:
+        cleanup()
+
+
+def replay_in(env, payload):
     ok, out = common.build_naija()
     if not ok:
         print("replay: naija does not build: " + out[-1000:])
